@@ -465,4 +465,104 @@ example : Py.insert_whole (0 : Nat) [2, 2, 1] (some 1) (some 2) ["global"] tSelf
 example : (([gconst, gslices] : List Cls).flatMap (roundKeys tOther ["m"])).Nodup := by decide
 end tests
 
+/-! ### the premise "no key is listed twice" on the dictionaries of a model extension -/
+
+theorem nodup_flatMap_of {β γ : Type} (f : β → List γ) : ∀ (l : List β), (∀ x ∈ l, (f x).Nodup) →
+    l.Pairwise (fun a b => ∀ y, y ∈ f a → y ∉ f b) → (l.flatMap f).Nodup
+  | [], _, _ => by simp
+  | a :: l, h1, h2 => by
+    rw [List.pairwise_cons] at h2
+    rw [List.flatMap_cons, List.nodup_append]
+    refine ⟨h1 a (List.mem_cons_self ..), nodup_flatMap_of f l (fun x hx => h1 x (List.mem_cons_of_mem _ hx)) h2.2, ?_⟩
+    intro y hy z hz e
+    obtain ⟨b, hb, hzb⟩ := List.mem_flatMap.mp hz
+    exact h2.1 b hb y hy (e ▸ hzb)
+
+theorem mem_entsOf_keys (o : DExt κ α) (c : Cls) (y : κ) (h : y ∈ (entsOf o c).map (·.1)) :
+    ∃ x ∈ o.ents, x.1 = y ∧ x.2.1 = c := by
+  obtain ⟨p, hp, rfl⟩ := List.mem_map.mp h
+  obtain ⟨x, hx, rfl⟩ := List.mem_map.mp hp
+  have := List.mem_filter.mp hx
+  exact ⟨x, this.1, rfl, by simpa using this.2⟩
+
+/-- on the dictionaries of a model extension whose keys are unique, against a `self` whose keys are unique, the rounds of
+    `_insert` list no key twice -/
+theorem roundKeys_nodup (o : DExt κ α) (hn : (o.ents.map (·.1)).Nodup) (kc0 : KContent κ α) (hk : (kc0.map (·.1)).Nodup)
+    (sv : List Cls) :
+    ((validClasses o.shp).flatMap (roundKeys (toContent o) ((KContent.keys sv kc0).filter fun key =>
+      !((validClasses o.shp).flatMap fun c => (dictGet (toContent o) c).map (·.1)).contains key))).Nodup := by
+  have hmiss_nd : ((KContent.keys sv kc0).filter fun key =>
+      !((validClasses o.shp).flatMap fun c => (dictGet (toContent o) c).map (·.1)).contains key).Nodup := by
+    apply List.Nodup.sublist List.filter_sublist
+    unfold KContent.keys
+    exact List.Nodup.sublist ((List.filter_sublist (l := kc0)).map _) hk
+  have hmiss_not : ∀ y c, c ∈ validClasses o.shp → y ∈ (entsOf o c).map (·.1) →
+      y ∉ (KContent.keys sv kc0).filter fun key =>
+        !((validClasses o.shp).flatMap fun c => (dictGet (toContent o) c).map (·.1)).contains key := by
+    intro y c hc hy hm
+    have h2 := (List.mem_filter.mp hm).2
+    have : y ∈ (validClasses o.shp).flatMap fun c => (dictGet (toContent o) c).map (·.1) :=
+      List.mem_flatMap.mpr ⟨c, hc, by rw [dictGet_toContent o c hc]; exact hy⟩
+    simp [this] at h2
+  apply nodup_flatMap_of
+  · intro c hc
+    unfold roundKeys
+    rw [dictGet_toContent o c hc, List.nodup_append]
+    refine ⟨entsOf_keys_nodup o hn c, ?_, ?_⟩
+    · by_cases e : c = gconst
+      · rw [if_pos e]; exact hmiss_nd
+      · rw [if_neg e]; simp
+    · intro y hy z hz e
+      by_cases ec : c = gconst
+      · rw [if_pos ec] at hz
+        exact hmiss_not y c hc hy (e ▸ hz)
+      · rw [if_neg ec] at hz
+        simp at hz
+  · have hp := List.nodup_iff_pairwise_ne.mp (validClasses_nodup o.shp)
+    -- membership is needed for `dictGet_toContent`: carry it through the pairwise relation
+    have hp' : (validClasses o.shp).Pairwise (fun a b => a ∈ validClasses o.shp ∧ b ∈ validClasses o.shp ∧ a ≠ b) := by
+      have hmem : ∀ a ∈ validClasses o.shp, a ∈ validClasses o.shp := fun _ h => h
+      exact List.Pairwise.imp_of_mem (fun ha hb hne => ⟨ha, hb, hne⟩) hp
+    refine List.Pairwise.imp ?_ hp'
+    intro a b ⟨ha, hb, hne⟩ y hya hyb
+    unfold roundKeys at hya hyb
+    rw [dictGet_toContent o a ha] at hya
+    rw [dictGet_toContent o b hb] at hyb
+    rcases List.mem_append.mp hya with h1 | h1 <;> rcases List.mem_append.mp hyb with h2 | h2
+    · obtain ⟨x, hx, ex, cx⟩ := mem_entsOf_keys o a y h1
+      obtain ⟨x', hx', ex', cx'⟩ := mem_entsOf_keys o b y h2
+      have := nodup_map_inj (·.1) o.ents hn x x' hx hx' (ex.trans ex'.symm)
+      exact hne (cx ▸ cx' ▸ this ▸ rfl)
+    · by_cases eb : b = gconst
+      · rw [if_pos eb] at h2; exact hmiss_not y a ha h1 h2
+      · rw [if_neg eb] at h2; simp at h2
+    · by_cases ea : a = gconst
+      · rw [if_pos ea] at h1; exact hmiss_not y b hb h2 h1
+      · rw [if_neg ea] at h1; simp at h1
+    · by_cases ea : a = gconst
+      · by_cases eb : b = gconst
+        · exact hne (ea.trans eb.symm)
+        · rw [if_neg eb] at h2; simp at h2
+      · rw [if_neg ea] at h1; simp at h1
+
+/-- the keys only `self` has, against the dictionaries of a model extension -/
+def missingOn (sv : List Cls) (kc0 : KContent κ α) (o : DExt κ α) : List κ :=
+  (KContent.keys sv kc0).filter fun key =>
+    !((validClasses o.shp).flatMap fun c => (dictGet (toContent o) c).map (·.1)).contains key
+
+/-- **the `try` block of `_insert` on the dictionaries of a model extension treats keys independently** — `insert_try_per_key`
+    with its premises discharged: `other` any model extension with 3 to 5 axes and unique keys, `self` any per-key view with
+    unique keys -/
+theorem insert_try_per_key_on_ext [DecidableEq α] (null : α) (ss : List Nat) (sn sd : Option Nat) (bases : List String)
+    (kc0 kc' : KContent κ α) (hk : (kc0.map (·.1)).Nodup) (sv : List Cls) (hsv : Py.get_valid_classes ss = .ok sv)
+    (o : DExt κ α) (h3 : 3 ≤ o.shape.length) (h5 : o.shape.length ≤ 5) (hn : (o.ents.map (·.1)).Nodup)
+    (on : Option Nat) (dim : Nat)
+    (h : Py.insert_try null ss sn sd bases kc0 o.shape on (toContent o) dim = .ok kc') :
+    (∀ c k, c ∈ validClasses o.shp → k ∈ roundKeys (toContent o) (missingOn sv kc0 o) c →
+        keyStep null ss sn sd bases o.shape on (validClasses o.shp) (toContent o) dim c k (kc0.get k) = .ok (kc'.get k)) ∧
+    (∀ k, (∀ c ∈ validClasses o.shp, k ∉ roundKeys (toContent o) (missingOn sv kc0 o) c) → kc'.get k = kc0.get k) :=
+  insert_try_per_key null ss sn sd bases kc0 kc' o.shape on (toContent o) dim (validClasses o.shp) sv _
+    (get_valid_classes_eq o none h3 h5) hsv (get_keys_eq o.shape _ (get_valid_classes_eq o none h3 h5) (toContent o))
+    (roundKeys_nodup o hn kc0 hk sv) h
+
 end Src
